@@ -13,7 +13,7 @@ LEVEL = "exploration"
 WORKERS = {"quick": 4, "thorough": 16}
 BUDGET = {"quick": 60, "thorough": 300}
 MIN_NONTRIVIAL = {"quick": 600, "thorough": 4000}
-REQUIRED_HOOKS = ["evaluate:I", "evaluate:C", "host-call", "override-isolation", "unbound"]
+REQUIRED_HOOKS = ["evaluate:I", "evaluate:C", "host-call", "override-isolation", "shared-ast", "unbound"]
 RULE = (
     "The host functions are recording proxies (name, received argument values with their classes). Product of call shape (f(a..), a.f(..), 0-3 arguments, "
     "nested in arithmetic, ||, &&, ?:, map/filter/exists_one/all/exists) x supplying style (list of callables, name->callable dict) x callable kind "
@@ -302,6 +302,54 @@ def override_isolation(acc, r):
         acc.violation(f"{r} override mutates-base_functions", "celpy.evaluation.base_functions changed after building a program with overrides", {"label": "override", "runner": r})
 
 
+def shared_ast(acc, r):
+    """Functions are bound per program: several programs built from ONE compiled AST (with an override, without, with another
+    function of the same name), evaluated in every order, must each call their own functions."""
+    c = core.celpy()
+    acc.hook("shared-ast")
+    src = "size([1, 2]) + [5, 6, 7].size() + [[1], [1, 2]].map(e, size(e))[1] + h1(1)"
+
+    def other_size(x):
+        return c.celtypes.IntType(1000)
+
+    def other_h1(x):
+        return c.celtypes.IntType(int(x) + 500)
+
+    variants = {
+        "override": {"size": hostfuncs.size, "h1": hostfuncs.h1},
+        "plain": {"h1": hostfuncs.h1},
+        "other": {"size": other_size, "h1": other_h1},
+        "list": [hostfuncs.h1],
+    }
+    want = {"override": -1 - 1 - 1 + 2, "plain": 2 + 3 + 2 + 2, "other": 3000 + 501, "list": 2 + 3 + 2 + 2}
+    for order in itertools.permutations(sorted(variants), 3):
+        try:
+            env = c.Environment(runner_class=core.runner_class(r))
+            ast = env.compile(src)
+            progs = {k: env.program(ast, functions=variants[k]) for k in order}
+        except Exception as ex:
+            acc.violation(f"{r} shared-ast construction X:{type(ex).__name__}", f"building programs {order} from one AST of {src!r}: {type(ex).__name__} {core._msg(ex)}", {"label": "shared-ast", "runner": r})
+            return
+        got = {}
+        for k in list(order) + list(reversed(order)):
+            try:
+                got.setdefault(k, []).append(int(progs[k].evaluate({})))
+            except Exception as ex:
+                got.setdefault(k, []).append(type(ex).__name__)
+        acc.evaluations += 6
+        acc.nt(["shared-ast", r, list(order)])
+        bad = {k: v for k, v in got.items() if v != [want[k], want[k]]}
+        acc.cell("shared-ast", r, "ok" if not bad else "differ")
+        if bad:
+            k = sorted(bad)[0]
+            acc.violation(
+                f"{r} shared-ast program-calls-another-program's-functions variant={k}",
+                f"programs {order} built from ONE compiled AST of {src!r} and evaluated in that order and back: the {k!r} program gave {bad[k]}, expected {want[k]} twice",
+                {"label": "shared-ast", "runner": r},
+            )
+            return
+
+
 def unbound(acc, r):
     for src in ("nofunc(1)", "(1).nofunc()", "nofunc()", "'a'.nofunc(1, 2)", "h1(1)", "[1].map(e, nofunc(e))", "true || nofunc(1) == 1"):
         out = core.api_eval(r, src, {})
@@ -329,6 +377,7 @@ def run(ctx):
     if ctx.worker == 0:
         for r in "IC":
             override_isolation(acc, r)
+            shared_ast(acc, r)
             unbound(acc, r)
     acc.sample({"program": "[1, 2, 3].map(e, e.h2(x))", "style": "dict", "kind": "lambda", "expected_calls": 3})
     acc.sample({"program": "hval(x) || true", "style": "list", "kind": "module-def", "expected": True})
@@ -341,6 +390,8 @@ def replay(case):
         override_isolation(acc, case["runner"])
     elif case["label"] == "unbound":
         unbound(acc, case["runner"])
+    elif case["label"] == "shared-ast":
+        shared_ast(acc, case["runner"])
     else:
         for label, node, sites in PROGRAMS:
             if label == case["label"]:
